@@ -6,3 +6,8 @@ import PyIkev2.Props.C10
 #print axioms PyIkev2.Props.C10.c10_rekey_handover_silent
 #print axioms PyIkev2.Props.C10.c10_timeout_marks_only
 #print axioms PyIkev2.Props.C10.c10_sweep_removes_with_sas
+#print axioms PyIkev2.Props.C10.c10_concrete_requests_explain_the_sad
+#print axioms PyIkev2.Props.C10.c10_concrete_request_keeps_sad_equal_tracked
+#print axioms PyIkev2.Props.C10.c10_concrete_response_keeps_sad_equal_tracked
+#print axioms PyIkev2.Props.C10.c10_concrete_generators_keep_sad_equal_tracked
+#print axioms PyIkev2.Props.C10.c10_concrete_handover
